@@ -349,9 +349,20 @@ def oracle(spec, mol, mlist, out, logs, raw):
         errs.append(('no_silent_loss', 'non-hydrogen atoms %r contribute to no particle and no unmapped-atom '
                      'warning was raised' % lost[:5]))
     # ---- overlap ----------------------------------------------------------------------------------
-    if shared and (logging.WARNING, 'inconsistent-data') not in types:
+    # an atom that contributes to nothing in a placement (empty weight table, no spawned particle in the
+    # block) leaves no trace there; the warning is required when the shared atom contributes in every
+    # placement that contains it (hypothesis of theorem overlap_warned); the other situation is counted
+    def contributes(j, atom):
+        i, emb = places[j]
+        m = mlist[i]
+        f = next(f for f, x in emb.items() if x == atom)
+        has_spawned = any(not any(b in ws for ws in m.mapping.values()) for b in m.block_to.nodes)
+        return bool(m.mapping.get(f)) or has_spawned
+    strict = {a for a in shared if all(contributes(j, a) for j in range(len(places)) if a in atomsets[j])}
+    info['overlap_noncontributing'] = bool(shared - strict)
+    if strict and (logging.WARNING, 'inconsistent-data') not in types:
         errs.append(('overlap_warned', 'atoms %r are in two placements and no inconsistent-data warning was raised'
-                     % sorted(shared)[:5]))
+                     % sorted(strict)[:5]))
     return errs, info
 
 
@@ -745,7 +756,7 @@ for (cid, spec, meta, status, impl, errs, info, logs, ln), sent, mo in zip(recs,
     chk.count('topo=' + meta['topo'])
     chk.count('keys=' + meta['keys'])
     chk.count('placements=%s' % (npl if npl < 6 else '6+'))
-    for name, flag in (('overlap', info.get('overlap')), ('spawned', info.get('spawned')), ('lost_atoms', info.get('lost')),
+    for name, flag in (('overlap', info.get('overlap')), ('overlap_noncontributing_atom', info.get('overlap_noncontributing')), ('spawned', info.get('spawned')), ('lost_atoms', info.get('lost')),
                        ('inter_bonds', info.get('inter_bonds')), ('warn_garbage', kinds[1]), ('warn_disconnected', kinds[2]),
                        ('warn_hydrogens', kinds[4]), ('two_residue_mapping', any(m['name'] == 'PAIR' for m in spec['mappings'])),
                        ('references', any(m['refs'] for m in spec['mappings'])), ('unexpected_log', other)):
